@@ -31,7 +31,7 @@ def plan(tier, seed):
 
 
 def required(tier):
-    return {"linearity": 25, "theta-scaling": 60, "refsize-integrator": 30, "refsize-phi_1D": 25, "refsize-program": 5, "time-shift-invariant": 20, "empty-density-receives-mutations": 30,
+    return {"linearity": 25, "theta-scaling": 60, "refsize-integrator": 30, "refsize-phi_1D": 25, "refsize-program": 5, "time-shift-invariant": 20, "empty-density-receives-mutations": 30, "theta0-zero-additive": 30,
             "linearity-program": 5}
 
 
@@ -167,6 +167,11 @@ def run_integ(spec, rec, Integration, kind):
             # from an empty density the result is proportional to theta0
             ok5, r5 = rec.noraise("driver-returns", lambda: f(np.zeros((L,) * nd), xx, T, theta0=th1, **kw), site=site, tags=tags)
             ok6, r6 = rec.noraise("driver-returns", lambda: f(np.zeros((L,) * nd), xx, T, theta0=th2, **kw), site=site, tags=tags)
+            # theta0 exactly 0 (no new mutations) is a value like any other: R(phi, th) = R(phi, 0) + R(0, th)
+            ok7, r7 = rec.noraise("driver-returns", lambda: f(phi1.copy(), xx, T, theta0=0, **kw), site=site, tags=tags)
+            if ok1 and ok5 and ok7:
+                sc7 = max(float(np.max(np.abs(r1))), 1e-300)
+                rec.close("theta0-zero-additive", relerr(np.asarray(r7) + np.asarray(r5), np.asarray(r1), scale=sc7), TOL, site=site, tags=tags)
             if ok5 and ok6:
                 # an empty density is not a fixed point: mutations enter every population that is neither frozen nor nomut
                 receives = any(not kw.get("frozen%d" % (i + 1), False) and not kw.get("nomut%d" % (i + 1), False) for i in range(nd))
